@@ -96,11 +96,7 @@ template <class Cn, class E, bool Static> struct Runner {
         else if (name == "Destroy") { c(k).~Cn(); exists[k] = false; unreg(k); }
         else if (name == "PushBack") { E v((int)a); c(k).push_back(v); }
         else if (name == "EmplaceBack") { c(k).emplace_back((int)a); }
-#ifdef USE_STD_PORTABLE   // the range erase of the amalgamated header does not instantiate (three-argument igris::move does not exist)
-        else if (name == "Erase") { unsupported(name); }
-#else
-        else if (name == "Erase") { c(k).erase(c(k).begin() + a, c(k).begin() + b); }
-#endif
+        else if (name == "Erase") { if constexpr (requires { c(k).erase(c(k).begin(), c(k).begin()); }) c(k).erase(c(k).begin() + a, c(k).begin() + b); else unsupported(name); }
         else if (name == "Resize") { c(k).resize(a); }
         else if (name == "Clear") { c(k).clear(); }
         else if (name == "CopyCtor") { prep(k); if constexpr (Static) { g_blocks.push_back(Block{(char *)c(k).data(), (sizeof(Cn) - sizeof(size_t)) / sizeof(E), sizeof(E), g_next_id, true}); { Ev e("Alloc"); e.i("b", g_next_id).i("n", (sizeof(Cn) - sizeof(size_t)) / sizeof(E)); e.end(); } ++g_next_id; }
